@@ -263,6 +263,14 @@ def run(ctx: core.Ctx) -> None:
     replay_files(ctx, context, f'context-heads+<={n_ctx}')
     fuzz_replay(ctx, items, judged, fz['by_class'])
 
+    # whole scripts with verbatim statements (a backticked line, a fenced block, the same text twice) between the equations:
+    # Script.tla says which symbols and which code blocks they contribute ("each one contributes exactly one equation or
+    # verbatim block"); the generated pass must run every block, in the specification's code order
+    from . import script_common as scc
+    core.sany('ScriptMC')
+    vrecs = scc.emit_layer(ctx, 'vstmt')
+    scc.replay(ctx, vrecs, checks=['c01'], namemaps=['plain'], what='vstmt', layouts=['canon'])
+
     ctx.exhaustive = True
     ctx.extra['exhaustive_bound'] = (f'all {sum(27 ** i for i in range(n_full + 1))} strings of length <= {n_full} over the 27-character alphabet; '
                                      f'context slices exhaustive for tails <= {n_ctx}; fuzzing is sampled')
@@ -278,6 +286,9 @@ def run(ctx: core.Ctx) -> None:
 
 
 def replay(data: Dict[str, Any]) -> int:
+    if data.get('module') == 'Script':
+        from . import script_common as scc
+        return scc.replay_one(data)
     rec = data.get('record')
     out = core.run_workers(WORKER, [{'mode': 'exact', 'items': [{'text': data['text'], 'record': rec, 'origin': data.get('origin')}]}])[0]
     if data['key'] in out['keys']:
